@@ -14,7 +14,8 @@
 (* must find the panic and the stuck loop - the negative control).                                            *)
 EXTENDS Integers, Sequences, FiniteSets, TLC
 
-CONSTANTS Senders, Closers, NEvents, Cap, Locked
+CONSTANTS Senders, Closers, NEvents, Cap, Locked,
+          CloseOnCtxDone   \* a frame arriving for a request whose context is cancelled completes the request (TRUE: as it stands)
 
 VARIABLES closed,      \* the connection's closed flag
           field,       \* "set" | "nil": the outgoing / events fields
@@ -29,17 +30,19 @@ VARIABLES closed,      \* the connection's closed flag
           lateStart,   \* senders whose Send began after some Close had returned
           panicked,    \* a send on a closed channel happened
           evLeft,      \* events the peer still pushes
-          closeDone    \* the Close that won the compare-and-swap has returned
-vars == <<closed, field, chans, hclosed, queue, reg, completed, pc, held, result, lateStart, panicked, evLeft, closeDone>>
+          closeDone,   \* the Close that won the compare-and-swap has returned
+          everReg,     \* requests ever registered
+          rtarget      \* the request whose final response the receive loop is delivering ("none" between deliveries)
+vars == <<closed, field, chans, hclosed, queue, reg, completed, pc, held, result, lateStart, panicked, evLeft, closeDone, everReg, rtarget>>
 
-Threads == Senders \cup Closers \cup {"evloop", "outloop"}
+Threads == Senders \cup Closers \cup {"evloop", "outloop", "rloop"}
 
 Init == /\ closed = FALSE /\ field = "set" /\ chans = "open" /\ hclosed = FALSE /\ queue = 0
         /\ reg = {} /\ completed = {}
-        /\ pc = [t \in Threads |-> IF t \in Senders THEN "s.check" ELSE IF t \in Closers THEN "c.cas" ELSE IF t = "evloop" THEN "e.check" ELSE "o.check"]
+        /\ pc = [t \in Threads |-> IF t \in Senders THEN "s.check" ELSE IF t \in Closers THEN "c.cas" ELSE IF t = "evloop" THEN "e.check" ELSE IF t = "rloop" THEN "r.pick" ELSE "o.check"]
         /\ held = [t \in Threads |-> "none"]
         /\ result = [s \in Senders |-> "none"]
-        /\ lateStart = {} /\ panicked = FALSE /\ evLeft = NEvents /\ closeDone = FALSE
+        /\ lateStart = {} /\ panicked = FALSE /\ evLeft = NEvents /\ closeDone = FALSE /\ everReg = {} /\ rtarget = "none"
 
 Go(t, l) == pc' = [pc EXCEPT ![t] = l]
 CloseReturned == closeDone
@@ -50,12 +53,13 @@ SCheck(s) == /\ pc[s] = "s.check"
              /\ lateStart' = IF CloseReturned THEN lateStart \cup {s} ELSE lateStart
              /\ IF closed THEN Go(s, "done") /\ result' = [result EXCEPT ![s] = "err"]
                 ELSE Go(s, "s.enqueue") /\ UNCHANGED result
-             /\ UNCHANGED <<closed, field, chans, hclosed, queue, reg, completed, held, panicked, evLeft, closeDone>>
+             /\ UNCHANGED <<closed, field, chans, hclosed, queue, reg, completed, held, panicked, evLeft, closeDone, everReg, rtarget>>
 \* in-flight handler: refused once the handler is closed
 SEnqueue(s) == /\ pc[s] = "s.enqueue"
                /\ IF hclosed THEN Go(s, "done") /\ result' = [result EXCEPT ![s] = "err"] /\ UNCHANGED reg
                   ELSE Go(s, IF Locked THEN "s.send" ELSE "s.read") /\ reg' = reg \cup {s} /\ UNCHANGED result
-               /\ UNCHANGED <<closed, field, chans, hclosed, queue, completed, held, lateStart, panicked, evLeft, closeDone>>
+               /\ everReg' = IF hclosed THEN everReg ELSE everReg \cup {s}
+               /\ UNCHANGED <<closed, field, chans, hclosed, queue, completed, held, lateStart, panicked, evLeft, closeDone, rtarget>>
 \* the non-blocking send on the channel found in the field
 TrySend(s, ch) == IF ch = "nil" \/ queue >= Cap THEN result' = [result EXCEPT ![s] = "err"] /\ UNCHANGED <<queue, panicked>>
                   ELSE IF chans = "closed" THEN panicked' = TRUE /\ UNCHANGED <<queue, result>>
@@ -64,73 +68,90 @@ TrySend(s, ch) == IF ch = "nil" \/ queue >= Cap THEN result' = [result EXCEPT ![
 SSend(s) == /\ pc[s] = "s.send"
             /\ TrySend(s, IF field = "nil" THEN "nil" ELSE "chan")
             /\ Go(s, "done")
-            /\ UNCHANGED <<closed, field, chans, hclosed, reg, completed, held, lateStart, evLeft, closeDone>>
+            /\ UNCHANGED <<closed, field, chans, hclosed, reg, completed, held, lateStart, evLeft, closeDone, everReg, rtarget>>
 \* as found: two steps
 SRead(s) == /\ pc[s] = "s.read"
             /\ held' = [held EXCEPT ![s] = IF field = "nil" THEN "nil" ELSE "chan"]
             /\ Go(s, "s.chansend")
-            /\ UNCHANGED <<closed, field, chans, hclosed, queue, reg, completed, result, lateStart, panicked, evLeft, closeDone>>
+            /\ UNCHANGED <<closed, field, chans, hclosed, queue, reg, completed, result, lateStart, panicked, evLeft, closeDone, everReg, rtarget>>
 SChanSend(s) == /\ pc[s] = "s.chansend"
                 /\ TrySend(s, held[s])
                 /\ Go(s, "done")
-                /\ UNCHANGED <<closed, field, chans, hclosed, reg, completed, held, lateStart, evLeft, closeDone>>
+                /\ UNCHANGED <<closed, field, chans, hclosed, reg, completed, held, lateStart, evLeft, closeDone, everReg, rtarget>>
 
 (* the incoming loop delivering events *)
 ECheck == /\ pc["evloop"] = "e.check"
           /\ IF closed \/ evLeft = 0 THEN Go("evloop", "done") /\ UNCHANGED evLeft
              ELSE Go("evloop", IF Locked THEN "e.send" ELSE "e.read") /\ evLeft' = evLeft - 1
-          /\ UNCHANGED <<closed, field, chans, hclosed, queue, reg, completed, held, result, lateStart, panicked, closeDone>>
+          /\ UNCHANGED <<closed, field, chans, hclosed, queue, reg, completed, held, result, lateStart, panicked, closeDone, everReg, rtarget>>
 ESend == /\ pc["evloop"] = "e.send"
          /\ panicked' = panicked            \* read-locked: the channel cannot be closed under it; nil field -> dropped
          /\ Go("evloop", "e.check")
-         /\ UNCHANGED <<closed, field, chans, hclosed, queue, reg, completed, held, result, lateStart, evLeft, closeDone>>
+         /\ UNCHANGED <<closed, field, chans, hclosed, queue, reg, completed, held, result, lateStart, evLeft, closeDone, everReg, rtarget>>
 ERead == /\ pc["evloop"] = "e.read"
          /\ held' = [held EXCEPT !["evloop"] = IF field = "nil" THEN "nil" ELSE "chan"]
          /\ Go("evloop", "e.chansend")
-         /\ UNCHANGED <<closed, field, chans, hclosed, queue, reg, completed, result, lateStart, panicked, evLeft, closeDone>>
+         /\ UNCHANGED <<closed, field, chans, hclosed, queue, reg, completed, result, lateStart, panicked, evLeft, closeDone, everReg, rtarget>>
 EChanSend == /\ pc["evloop"] = "e.chansend"
              /\ panicked' = (panicked \/ (held["evloop"] = "chan" /\ chans = "closed"))
              /\ Go("evloop", "e.check")
-             /\ UNCHANGED <<closed, field, chans, hclosed, queue, reg, completed, held, result, lateStart, evLeft, closeDone>>
+             /\ UNCHANGED <<closed, field, chans, hclosed, queue, reg, completed, held, result, lateStart, evLeft, closeDone, everReg, rtarget>>
 
 (* the outgoing loop *)
 OCheck == /\ pc["outloop"] = "o.check"
           /\ Go("outloop", IF closed THEN "done" ELSE "o.recv")
-          /\ UNCHANGED <<closed, field, chans, hclosed, queue, reg, completed, held, result, lateStart, panicked, evLeft, closeDone>>
+          /\ UNCHANGED <<closed, field, chans, hclosed, queue, reg, completed, held, result, lateStart, panicked, evLeft, closeDone, everReg, rtarget>>
 \* receive: as built from the channel the loop was started with; as found from whatever the field holds now - and a
 \* receive from a nil channel never returns
 ORecv == /\ pc["outloop"] = "o.recv"
          /\ IF ~Locked /\ field = "nil" THEN Go("outloop", "stuck") /\ UNCHANGED queue
             ELSE IF queue > 0 THEN queue' = queue - 1 /\ Go("outloop", "o.check")
             ELSE chans = "closed" /\ Go("outloop", "done") /\ UNCHANGED queue          \* (blocks while open and empty)
-         /\ UNCHANGED <<closed, field, chans, hclosed, reg, completed, held, result, lateStart, panicked, evLeft, closeDone>>
+         /\ UNCHANGED <<closed, field, chans, hclosed, reg, completed, held, result, lateStart, panicked, evLeft, closeDone, everReg, rtarget>>
+
+(* the incoming loop delivering the final response of a registered request (onIncomingFrameReceived): the request is
+   unregistered first, then handed its frame - unless its context (a child of the connection's, cancelled by Close
+   right after the compare-and-swap) is done: the select may then take that branch instead *)
+RPick(s) == /\ pc["rloop"] = "r.pick" /\ ~closed /\ s \in reg /\ s \notin completed
+            /\ pc[s] = "done" /\ result[s] = "ok"                          \* its frame was written: the peer answers
+            /\ reg' = reg \ {s} /\ rtarget' = s
+            /\ Go("rloop", "r.hand")
+            /\ UNCHANGED <<closed, field, chans, hclosed, queue, completed, held, result, lateStart, panicked, evLeft, closeDone, everReg>>
+RStop == /\ pc["rloop"] = "r.pick" /\ closed /\ Go("rloop", "done")
+         /\ UNCHANGED <<closed, field, chans, hclosed, queue, reg, completed, held, result, lateStart, panicked, evLeft, closeDone, everReg, rtarget>>
+RHand == /\ pc["rloop"] = "r.hand"
+         /\ \/ completed' = completed \cup {rtarget}                         \* the frame is delivered: completed on its last frame
+            \/ closed /\ (IF CloseOnCtxDone THEN completed' = completed \cup {rtarget} ELSE UNCHANGED completed)   \* context done
+         /\ rtarget' = "none" /\ Go("rloop", "r.pick")
+         /\ UNCHANGED <<closed, field, chans, hclosed, queue, reg, held, result, lateStart, panicked, evLeft, closeDone, everReg>>
 
 (* Close *)
 CCas(c) == /\ pc[c] = "c.cas"
            /\ IF closed THEN Go(c, "done") /\ UNCHANGED closed
               ELSE closed' = TRUE /\ Go(c, IF Locked THEN "c.chans" ELSE "c.nil")
-           /\ UNCHANGED <<field, chans, hclosed, queue, reg, completed, held, result, lateStart, panicked, evLeft, closeDone>>
+           /\ UNCHANGED <<field, chans, hclosed, queue, reg, completed, held, result, lateStart, panicked, evLeft, closeDone, everReg, rtarget>>
 CChans(c) == /\ pc[c] = "c.chans"                      \* write-locked: fields set to nil and channels closed at once
              /\ field' = "nil" /\ chans' = "closed"
              /\ Go(c, "c.hclose")
-             /\ UNCHANGED <<closed, hclosed, queue, reg, completed, held, result, lateStart, panicked, evLeft, closeDone>>
+             /\ UNCHANGED <<closed, hclosed, queue, reg, completed, held, result, lateStart, panicked, evLeft, closeDone, everReg, rtarget>>
 CNil(c) == /\ pc[c] = "c.nil" /\ field' = "nil" /\ Go(c, "c.close")
-           /\ UNCHANGED <<closed, chans, hclosed, queue, reg, completed, held, result, lateStart, panicked, evLeft, closeDone>>
+           /\ UNCHANGED <<closed, chans, hclosed, queue, reg, completed, held, result, lateStart, panicked, evLeft, closeDone, everReg, rtarget>>
 CClose(c) == /\ pc[c] = "c.close" /\ chans' = "closed" /\ Go(c, "c.hclose")
-             /\ UNCHANGED <<closed, field, hclosed, queue, reg, completed, held, result, lateStart, panicked, evLeft, closeDone>>
+             /\ UNCHANGED <<closed, field, hclosed, queue, reg, completed, held, result, lateStart, panicked, evLeft, closeDone, everReg, rtarget>>
 CHClose(c) == /\ pc[c] = "c.hclose"
               /\ hclosed' = TRUE /\ completed' = completed \cup reg
               /\ Go(c, "c.wait")
-              /\ UNCHANGED <<closed, field, chans, queue, reg, held, result, lateStart, panicked, evLeft, closeDone>>
+              /\ UNCHANGED <<closed, field, chans, queue, reg, held, result, lateStart, panicked, evLeft, closeDone, everReg, rtarget>>
 \* waitGroup.Wait(): both loops have exited
 CWait(c) == /\ pc[c] = "c.wait"
-            /\ pc["evloop"] = "done" /\ pc["outloop"] = "done"
+            /\ pc["evloop"] = "done" /\ pc["outloop"] = "done" /\ pc["rloop"] = "done"
             /\ Go(c, "done") /\ closeDone' = TRUE
-            /\ UNCHANGED <<closed, field, chans, hclosed, queue, reg, completed, held, result, lateStart, panicked, evLeft>>
+            /\ UNCHANGED <<closed, field, chans, hclosed, queue, reg, completed, held, result, lateStart, panicked, evLeft, everReg, rtarget>>
 
 Next == \/ \E s \in Senders : SCheck(s) \/ SEnqueue(s) \/ SSend(s) \/ SRead(s) \/ SChanSend(s)
         \/ ECheck \/ ESend \/ ERead \/ EChanSend
         \/ OCheck \/ ORecv
+        \/ (\E s \in Senders : RPick(s)) \/ RStop \/ RHand
         \/ \E c \in Closers : CCas(c) \/ CChans(c) \/ CNil(c) \/ CClose(c) \/ CHClose(c) \/ CWait(c)
 
 Spec == Init /\ [][Next]_vars
@@ -143,14 +164,14 @@ NoStuckLoop == pc["outloop"] # "stuck"
 \* later sends are refused: a Send that began after a Close had returned does not succeed
 LaterSendsRefused == \A s \in lateStart : result[s] # "ok"
 \* every request still awaiting a response is completed by the time Close returns
-CompletedAtClose == CloseReturned => \A s \in reg : s \in completed \/ pc[s] # "done"
+CompletedAtClose == CloseReturned => \A s \in everReg : s \in completed \/ pc[s] # "done"
 \* ... and at quiescence every registered request is completed
 Quiet == \A t \in Threads : pc[t] \in {"done", "stuck"}
-AllCompleted == Quiet /\ closed => reg \subseteq completed
+AllCompleted == Quiet /\ closed => everReg \subseteq completed
 \* nothing is put on a channel after it has been closed (as built, by construction of the locked sections)
 \* the three guards that ConnShutdownTrace.tla checks on traces of the real code, as action properties of the design:
 EnqueueWhileOpen == [][queue' > queue => chans = "open"]_vars
-DoneMeansCompleted == [][closeDone' /\ ~closeDone => chans = "closed" /\ reg \subseteq completed]_vars
+DoneMeansCompleted == [][closeDone' /\ ~closeDone => chans = "closed" /\ everReg \subseteq completed]_vars
 NoRegistrationAfterDone == [][reg' # reg => ~closeDone]_vars
 \* Close returns (liveness, under fairness): every closer finishes
 CloseTerminates == \A c \in Closers : <>(pc[c] = "done")
